@@ -52,7 +52,83 @@ def expr_z3(t, env):
     return {"mul": a * b, "add": a + b, "sub": a - b, "floordiv": a / b, "and_": None}.get(op) if op != "and_" else None
 
 
-def check_layouts(tables, repo):
+def tree_diff(want, got, path, out):
+    """First-order comparison of two declaration trees; differences as 'path: expected X, declared Y'."""
+    if isinstance(want, dict) and isinstance(got, dict) and _is_expr(want) and _is_expr(got):
+        if want != got and expr_equiv(want, got) is not True:
+            out.append(f"{path}: expected {json.dumps(want)[:120]}, declared {json.dumps(got)[:120]}")
+        return
+    if isinstance(want, dict) and isinstance(got, dict):
+        if "Struct" in want and "Struct" in got:
+            wn, gn = [f[0] for f in want["Struct"]], [f[0] for f in got["Struct"]]
+            if wn != gn:
+                out.append(f"{path}: expected fields {wn}, declared {gn}")
+                return
+            for (n, w), (_, g) in zip(want["Struct"], got["Struct"]):
+                tree_diff(w, g, f"{path}.{n}", out)
+            return
+        if set(want) != set(got):
+            out.append(f"{path}: expected {sorted(want)}, declared {sorted(got)}")
+            return
+        for k in want:
+            tree_diff(want[k], got[k], f"{path}.{k}" if k in ("sub", "cases", "length", "func", "default", "key", "count") or k[0].isupper() else f"{path}.{k}", out)
+        return
+    if want != got:
+        if isinstance(want, dict) and isinstance(got, dict) and _is_expr(want) and _is_expr(got):
+            r = expr_equiv(want, got)
+            if r is True:
+                return          # a differently written but equal expression (proved by z3 over non-negative field values)
+            if r is None:
+                out.append(f"{path}: expression could not be compared: expected {json.dumps(want)[:100]}, declared {json.dumps(got)[:100]}")
+                return
+        out.append(f"{path}: expected {json.dumps(want)[:120]}, declared {json.dumps(got)[:120]}")
+
+
+# facts about field values established elsewhere (get_fmt_chunk_data: bits_per_sample == 8 * sample_width)
+EXPR_ASSUMPTIONS = {"this['bits_per_sample']": lambda v: v % 8 == 0}
+
+
+def _is_expr(t):
+    return isinstance(t, dict) and (("op" in t) or ("path" in t) or ("const" in t) or ("func" in t and "operand" in t))
+
+
+def expr_equiv(a, b):
+    """True / False / None(undecided): are two construct expression trees equal for all non-negative integer field values?"""
+    env = {}
+
+    def tr(t):
+        if "const" in t:
+            return z3.IntVal(t["const"]) if isinstance(t["const"], int) and not isinstance(t["const"], bool) else None
+        if "path" in t:
+            return env.setdefault(t["path"], z3.Int("f_" + str(len(env))))
+        if "func" in t:
+            inner = t.get("operand") or {}
+            key = "len:" + json.dumps(inner, sort_keys=True)
+            return env.setdefault(key, z3.Int("f_" + str(len(env)))) if t["func"] == "len" else None
+        if "op" in t and "lhs" in t:
+            x, y = tr(t["lhs"]), tr(t["rhs"])
+            if x is None or y is None:
+                return None
+            return {"mul": lambda: x * y, "add": lambda: x + y, "sub": lambda: x - y, "floordiv": lambda: x / y}.get(t["op"], lambda: None)()
+        return None
+    try:
+        x, y = tr(a), tr(b)
+        if x is None or y is None:
+            return None
+        sol = z3.Solver()
+        sol.set("timeout", 10000)
+        for k, v in env.items():
+            sol.add(v >= 0)
+            if k in EXPR_ASSUMPTIONS:
+                sol.add(EXPR_ASSUMPTIONS[k](v))
+        sol.add(x != y)
+        r = sol.check()
+        return True if r == z3.unsat else (False if r == z3.sat else None)
+    except Exception:  # noqa
+        return None
+
+
+def check_layouts(tables, repo, shapes=None):
     """-> list of {label, status ('discharged'|'refuted'|'unknown'), detail, backend}"""
     d = dump_structs(repo)
     out = []
@@ -60,6 +136,18 @@ def check_layouts(tables, repo):
     def ob(label, ok, detail=""):
         out.append({"label": label, "status": "discharged" if ok else "refuted", "detail": detail, "backend": "evaluation"})
 
+    for key, want in (shapes or {}).items():
+        got = d.get("shapes", {}).get(key)
+        if got is None:
+            out.append({"label": f"layout:{key}.tree", "status": "unknown", "detail": "anchor lost: " + d["errors"].get(key, "not dumped"),
+                        "backend": "evaluation"})
+            continue
+        diffs = []
+        tree_diff(want, got, "", diffs)
+        ob(f"layout:{key}.declaration-tree", not diffs, "; ".join(diffs[:4]))
+        # one obligation per named field path as well, so that a report names the field
+        for path in sorted({x.split(":")[0] for x in diffs})[:8]:
+            ob(f"layout:{key}.tree{path}", False, next(x for x in diffs if x.startswith(path + ":")))
     for key, table in tables.items():
         s = d["structs"].get(key)
         if s is None:
